@@ -82,6 +82,23 @@ func (h *hoister) list(list []ast.Stmt) []ast.Stmt {
 				exprs = v.Results
 			case *ast.RangeStmt:
 				exprs = []ast.Expr{v.X}
+			case *ast.IfStmt:
+				// `if x, ok := h(a)[k]; ok {`: the init statement runs first, a helper call in it can be
+				// taken out in front of the if
+				switch in := v.Init.(type) {
+				case *ast.AssignStmt:
+					if len(in.Rhs) == 1 {
+						if c, ok := Unparen(in.Rhs[0]).(*ast.CallExpr); !ok || h.p.NewHelperCallee(h.fn, c) == nil {
+							exprs = append(exprs, in.Rhs...)
+						}
+					} else {
+						exprs = append(exprs, in.Rhs...)
+					}
+				case *ast.ExprStmt:
+					if c, ok := Unparen(in.X).(*ast.CallExpr); !ok || h.p.NewHelperCallee(h.fn, c) == nil {
+						exprs = []ast.Expr{in.X}
+					}
+				}
 			}
 			as := h.hoistFrom(s, exprs)
 			if as == nil {
